@@ -39,7 +39,9 @@ CLAUSES = {
 TRUSTED = ['np.load/np.save/tobytes and the raw in-place write into templates.npy, scipy.linalg.block_diag, '
            'phylib.utils._misc.read_python/write_python (params.py text layer)',
            'materialisation of abstract probes and observation of the merged directory (harness/vt/datasets_c12.py)']
-ASSUMES = ['every probe has >= 1 channel, >= 1 template, >= 1 waveform sample, the same n_samples, table widths and sample rate; '
+ASSUMES = ['every probe has >= 1 channel, >= 1 template, >= 1 waveform sample, the same n_samples (a few cases with unequal n_samples '
+           'exercise the AssertionError exit of write_templates: model undefined, nothing but code 1 can be raised there), '
+           'table widths and sample rate; '
            'templates have as many channels as the channel map; index-table entries are valid local indices; x >= 0',
            'values are small integers / dyadic numbers exact in float32, coordinates multiples of 1/4 (exact regime)']
 TIMEOUT = {'quick': 60, 'thorough': 120}     # a merge takes ~10 ms; generous because the machine may be heavily loaded
@@ -99,6 +101,7 @@ def _boundary_cases(rng, tier):
 def _case(rng, sizes, route=None, vec2d=None, **o):
     """sizes = [(nc, nt), ...]"""
     ns = o.pop('ns', rng.choice([1, 2, 2, 3, 3, 4]))
+    nss = o.pop('nss', None) or [ns] * len(sizes)      # per-probe n_samples: unequal = the AssertionError exit
     pcw = o.pop('pcw', rng.choice([1, 2, 2, 3]))
     tfw = o.pop('tfw', rng.choice([1, 2, 2, 3]))
     # the sampling rate is common to the probes of a case (ASSUMES); integer-valued rates (written as an int or as a
@@ -119,7 +122,7 @@ def _case(rng, sizes, route=None, vec2d=None, **o):
         po = dict(o)
         for name in ('wm', 'wmi', 'sim'):
             po[name] = pres[name][k]
-        probes.append(M.gen_probe(rng, nc=nc, nt=nt, ns=ns, pcw=pcw, tfw=tfw, rate=rate, rate_lit=lits[k], **po))
+        probes.append(M.gen_probe(rng, nc=nc, nt=nt, ns=nss[k], pcw=pcw, tfw=tfw, rate=rate, rate_lit=lits[k], **po))
     if route is None:
         route = 'merge' if rng.random() < 0.25 else 'methods'
     return {'kind': 'merge', 'inp': {'route': route, 'vec2d': bool(rng.random() < 0.3) if vec2d is None else vec2d,
@@ -173,6 +176,17 @@ def generate(tier, rng):
     cases.append(_case(rng, [(2, 1), (1, 1)], route='methods', rate=0.5, rate_lits=['float', 'float']))
     cases.append(_case(rng, [(1, 2)], route='methods', rate=0.1, rate_lits=['float']))
     cases.append(_case(rng, [(1, 1), (1, 1)], route='methods', rate=29999.999999999996, rate_lits=['float', 'float']))
+    # error exit (C12_assertion_exit): probes that disagree on the number of waveform samples
+    cases.append(_case(rng, [(2, 1), (1, 2)], route='methods', nss=[2, 3]))
+    cases.append(_case(rng, [(2, 2), (3, 1), (1, 1)], route='methods', nss=[2, 2, 1], present=_all(3)))
+    cases.append(_case(rng, [(1, 1), (2, 2)], route='merge', nss=[1, 2]))
+    if tier == 'thorough':
+        for _ in range(40):
+            k = rng.choice([2, 3, 4])
+            nss = [rng.randint(1, 4) for _ in range(k)]
+            if len(set(nss)) == 1:
+                nss[rng.randrange(k)] += 1
+            cases.append(_case(rng, [(rng.randint(1, 4), rng.randint(1, 3)) for _ in range(k)], nss=nss))
     cases.extend(_boundary_cases(rng, tier))
     if tier == 'search':
         for _ in range(1200):
@@ -331,6 +345,7 @@ def dist(case, obs):
     lits = set(M.rate_literal(p).lstrip('-').isdigit() for p in ps)
     out.append('rate_literals=%s' % ('mixed' if len(lits) > 1 else 'int' if True in lits else 'float'))
     out.append('n_samples=%d' % len(ps[0]['tmpl'][0]))
+    out.append('unequal_n_samples=%s' % (len(set(len(p['tmpl'][0]) for p in ps)) > 1))
 
     def bucket(n):
         return '1..4' if n <= 4 else '5..62' if n < 63 else '63..65' if n <= 65 else '66..127' if n < 127 else '127..'
